@@ -418,6 +418,15 @@ def random_field(rng, used):
         if inner_ty(ty)[0] is None and rng.random() < 0.2 and ty in ('u32', 'usize'):
             post.append('fallback(%d)' % rng.randint(0, 9))
     if rng.random() < 0.08: post.append('hide')
+    if cons is None and not post and rng.random() < 0.06:
+        # constant consumers
+        sh, it = inner_ty(ty)
+        if it in ('u32', 'usize'):
+            if rng.random() < 0.5 or sh is not None:
+                cons = 'pure_with(|| Ok::<_, String>(Default::default()))'
+            else:
+                cons = 'pure(%d)' % rng.randint(0, 9)
+            naming = []
     return F(name, ty, naming=naming, cons=cons, post=post, doc=rng.choice(DOCS))
 
 def order_fields(fields):
@@ -428,10 +437,12 @@ def random_member(rng, i):
     used = set()
     if rng.random() < 0.6:
         fields = order_fields([random_field(rng, used) for _ in range(rng.randint(1, 5))])
-        top = ['options'] if rng.random() < 0.7 else []
-        doc = rng.choice([None, 'A tool', 'A tool\n\n\nWith header', 'Desc\n\n\nHead\n\n\nFoot'])
+        r = rng.random()
+        top = ['options'] if r < 0.6 else (['command'] if r < 0.75 else [])
+        doc = rng.choice([None, 'A tool', 'A tool\n\n\nWith header', 'Desc\n\n\nHead\n\n\nFoot', 'Desc\n \nstill desc\n\n\nHead'])
         if top and rng.random() < 0.3: top.append('version')
-        if top and doc and rng.random() < 0.25: top.append(rng.choice(['header("explicit h")', 'footer("explicit f")']))
+        if not top and rng.random() < 0.3: top.append('group_help("explicit title")')
+        if top and top[0] in ('options', 'command') and doc and rng.random() < 0.25: top.append(rng.choice(['header("explicit h")', 'footer("explicit f")']))
         return Member('r%03d' % i, 'struct', 'Gen%d' % i, top=top, doc=doc, fields=fields)
     variants = []
     for j in range(rng.randint(2, 4)):
@@ -439,6 +450,9 @@ def random_member(rng, i):
         shape = rng.choice(['unit', 'named', 'named', 'tuple'])
         vd = rng.choice([None, 'variant help', 'does a thing'])
         attrs = ['command'] if rng.random() < 0.35 else []
+        if attrs and rng.random() < 0.3:
+            vd = rng.choice(['cmd descr\n\n\ncmd header\n\n\ncmd footer', 'cmd descr\n\n\ncmd header'])
+            attrs.append(rng.choice(['header("explicit h")', 'footer("explicit f")']))
         if shape == 'unit':
             naming = []
             r = rng.random()
